@@ -52,3 +52,314 @@ Example C08_nonvacuous :
   | _ => False
   end.
 Proof. split; [repeat constructor | vm_compute; reflexivity]. Qed.
+
+(* ======================================================================
+   The rest of C08: rendered tables, aggregate gains, errors stay local.
+   Model: Model/Render.v (render_results / render_app: the whole composition
+   ledger result -> per-security gains -> aggregate -> tables) and
+   Model/AppRender.v (its per-security components).  Proofs: Proofs/C08Table.v,
+   Proofs/C08Agg.v. *)
+From ACB Require Import Model.CsvFields Model.Gains Model.Render Model.AppRender
+     Proofs.GainsProps Proofs.RenderProps Proofs.C08Table Proofs.C08Agg.
+
+(* The report of a run, security by security: the entry of security s in the
+   report (run_acb_app_to_render_model's security_tables) exists exactly for
+   the securities that have a row; it carries the error of s's OWN ledger
+   outcome and the table rendered from s's OWN outcome ([own_table]: its deltas
+   - all of them, or those before its error - with its own gains, or the empty
+   gains record when it failed).  Any arithmetic, both print modes. *)
+Theorem C08_report_entry : forall (A : arith) full cur inits rows rep s,
+  render_app A full cur inits rows = Ok rep ->
+  (In s (securities (sort_txs rows)) ->
+     exists t, table_of s rep = Some (snd (outcome_of A inits rows s), t) /\
+               own_table A full cur (outcome_of A inits rows s) = Ok t) /\
+  (~ In s (securities (sort_txs rows)) -> table_of s rep = None).
+Proof. exact C08Agg.report_entry. Qed.
+Check C08_report_entry : forall (A : arith) full cur inits rows rep s,
+  render_app A full cur inits rows = Ok rep ->
+  (In s (securities (sort_txs rows)) ->
+     exists t, table_of s rep = Some (snd (outcome_of A inits rows s), t) /\
+               own_table A full cur (outcome_of A inits rows s) = Ok t) /\
+  (~ In s (securities (sort_txs rows)) -> table_of s rep = None).
+Print Assumptions C08_report_entry.
+
+(* Read indices (positions in the concatenated input) do not appear in a table
+   except as the token of the memo cell - the last column, whose text is the
+   row's own memo: rendering deltas with erased read indices gives the same
+   table with that token blanked.  [cur] (the currency codes of a row) must be
+   the row's own, not a matter of its position. *)
+Theorem C08_read_index_only_in_memo : forall (A : arith) full cur,
+  (forall t, cur (erase t) = cur t) ->
+  forall ds g,
+  render_table A full cur (map erase_d ds) g = Render.map_res blank_memo (render_table A full cur ds g).
+Proof. exact C08Table.render_table_erase. Qed.
+Check C08_read_index_only_in_memo : forall (A : arith) full cur,
+  (forall t, cur (erase t) = cur t) ->
+  forall ds g,
+  render_table A full cur (map erase_d ds) g = Render.map_res blank_memo (render_table A full cur ds g).
+Print Assumptions C08_read_index_only_in_memo.
+
+(* The rendered table of security s (rows, footer labels and figures, both
+   notes; [full] = either print mode), its error slot and its own gains are the
+   same in the run on ANY interleaving i of a with rows b of other securities
+   as in the run on a alone - whatever b contains (invalid rows, over-sales,
+   panics of the model).  Any arithmetic. *)
+Theorem C08_table_independent : forall (A : arith) full cur,
+  (forall t, cur (erase t) = cur t) ->
+  forall init s a b i,
+  interleave a b i ->
+  Forall (fun y => N.eqb (t_sec y) s = false) b ->
+  let ri := sec_result_of A init (txs_of_sec s (sort_txs (number i))) in
+  let ra := sec_result_of A init (txs_of_sec s (sort_txs (number a))) in
+  snd ri = snd ra /\ own_errors ri = own_errors ra /\
+  own_gains A ri = own_gains A ra /\
+  footer_gains A ri = footer_gains A ra /\
+  Render.map_res blank_memo (own_table A full cur ri) = Render.map_res blank_memo (own_table A full cur ra).
+Proof. exact C08Table.table_independent. Qed.
+Check C08_table_independent : forall (A : arith) full cur,
+  (forall t, cur (erase t) = cur t) ->
+  forall init s a b i,
+  interleave a b i ->
+  Forall (fun y => N.eqb (t_sec y) s = false) b ->
+  let ri := sec_result_of A init (txs_of_sec s (sort_txs (number i))) in
+  let ra := sec_result_of A init (txs_of_sec s (sort_txs (number a))) in
+  snd ri = snd ra /\ own_errors ri = own_errors ra /\
+  own_gains A ri = own_gains A ra /\
+  footer_gains A ri = footer_gains A ra /\
+  Render.map_res blank_memo (own_table A full cur ri) = Render.map_res blank_memo (own_table A full cur ra).
+Print Assumptions C08_table_independent.
+
+(* What the code does with a failing security: it has no entry in
+   security_gains, so neither the rows computed before its error nor anything
+   else of it reaches the aggregate - the aggregate of the run IS the aggregate
+   of the run without that security's rows (same additions in the same order:
+   ANY arithmetic, rust_decimal rounding included). *)
+Theorem C08_aggregate_ignores_failed : forall (A : arith) inits i t e,
+  snd (outcome_of A inits (number i) t) = Some e ->
+  app_aggregate A (results A inits i) = app_aggregate A (results A inits (without t i)).
+Proof. exact C08Agg.aggregate_ignores_failed. Qed.
+Check C08_aggregate_ignores_failed : forall (A : arith) inits i t e,
+  snd (outcome_of A inits (number i) t) = Some e ->
+  app_aggregate A (results A inits i) = app_aggregate A (results A inits (without t i)).
+Print Assumptions C08_aggregate_ignores_failed.
+
+(* A bookkeeping error is the failing security's only.  If security t fails
+   (rejection or panic outcome of its ledger), then for every other security s:
+   its outcome (up to read indices), error slot, own totals and rendered table
+   are those of the run WITHOUT t's rows; the other securities reported are the
+   same; the aggregate is that of the run without t's rows; t itself has no
+   totals (empty footer record) and carries exactly its own error. *)
+Theorem C08_error_is_local : forall (A : arith) full cur,
+  (forall t, cur (erase t) = cur t) ->
+  forall inits i t e,
+  snd (outcome_of A inits (number i) t) = Some e ->
+  (forall s, s <> t ->
+     let ri := outcome_of A inits (number i) s in
+     let r' := outcome_of A inits (number (without t i)) s in
+     erase_result ri = erase_result r' /\
+     snd ri = snd r' /\ own_errors ri = own_errors r' /\
+     own_gains A ri = own_gains A r' /\ footer_gains A ri = footer_gains A r' /\
+     Render.map_res blank_memo (own_table A full cur ri) = Render.map_res blank_memo (own_table A full cur r')) /\
+  (forall s, s <> t -> (In s (securities (sort_txs (number i)))
+                        <-> In s (securities (sort_txs (number (without t i)))))) /\
+  ~ In t (securities (sort_txs (number (without t i)))) /\
+  app_aggregate A (results A inits i) = app_aggregate A (results A inits (without t i)) /\
+  own_gains A (outcome_of A inits (number i) t) = Ok None /\
+  footer_gains A (outcome_of A inits (number i) t) = Ok gains0 /\
+  own_errors (outcome_of A inits (number i) t) = [e].
+Proof. exact C08Agg.error_is_local. Qed.
+Check C08_error_is_local : forall (A : arith) full cur,
+  (forall t, cur (erase t) = cur t) ->
+  forall inits i t e,
+  snd (outcome_of A inits (number i) t) = Some e ->
+  (forall s, s <> t ->
+     let ri := outcome_of A inits (number i) s in
+     let r' := outcome_of A inits (number (without t i)) s in
+     erase_result ri = erase_result r' /\
+     snd ri = snd r' /\ own_errors ri = own_errors r' /\
+     own_gains A ri = own_gains A r' /\ footer_gains A ri = footer_gains A r' /\
+     Render.map_res blank_memo (own_table A full cur ri) = Render.map_res blank_memo (own_table A full cur r')) /\
+  (forall s, s <> t -> (In s (securities (sort_txs (number i)))
+                        <-> In s (securities (sort_txs (number (without t i)))))) /\
+  ~ In t (securities (sort_txs (number (without t i)))) /\
+  app_aggregate A (results A inits i) = app_aggregate A (results A inits (without t i)) /\
+  own_gains A (outcome_of A inits (number i) t) = Ok None /\
+  footer_gains A (outcome_of A inits (number i) t) = Ok gains0 /\
+  own_errors (outcome_of A inits (number i) t) = [e].
+Print Assumptions C08_error_is_local.
+
+(* ... and on the reports themselves (when both runs produce one): every other
+   security's entry - error slot and table - is unchanged, the aggregate table
+   is identical, and t's entry shows t's error over a footer with the single
+   line "Total" (no years). *)
+Theorem C08_report_error_is_local : forall (A : arith) full cur,
+  (forall t, cur (erase t) = cur t) ->
+  forall inits i t e rep rep',
+  snd (outcome_of A inits (number i) t) = Some e ->
+  render_app A full cur inits (number i) = Ok rep ->
+  render_app A full cur inits (number (without t i)) = Ok rep' ->
+  (forall s, s <> t -> option_map blank_entry (table_of s rep) = option_map blank_entry (table_of s rep')) /\
+  rp_aggregate rep = rp_aggregate rep' /\
+  table_of t rep' = None /\
+  (In t (map t_sec i) ->
+     exists tb, table_of t rep = Some (Some e, tb) /\ tb_labels tb = [LTotal] /\ length (tb_values tb) = 1%nat).
+Proof. exact C08Agg.report_error_is_local. Qed.
+Check C08_report_error_is_local : forall (A : arith) full cur,
+  (forall t, cur (erase t) = cur t) ->
+  forall inits i t e rep rep',
+  snd (outcome_of A inits (number i) t) = Some e ->
+  render_app A full cur inits (number i) = Ok rep ->
+  render_app A full cur inits (number (without t i)) = Ok rep' ->
+  (forall s, s <> t -> option_map blank_entry (table_of s rep) = option_map blank_entry (table_of s rep')) /\
+  rp_aggregate rep = rp_aggregate rep' /\
+  table_of t rep' = None /\
+  (In t (map t_sec i) ->
+     exists tb, table_of t rep = Some (Some e, tb) /\ tb_labels tb = [LTotal] /\ length (tb_values tb) = 1%nat).
+Print Assumptions C08_report_error_is_local.
+
+(* The one outcome that is NOT local: a panic of one security's ledger is the
+   abort of the process - there is no report for anybody (that valid inputs do
+   not panic is C05). *)
+Theorem C08_panic_aborts_report : forall (A : arith) full cur secs s ds p,
+  In (s, (ds, Some (SPanic p))) secs -> exists p', render_results A full cur secs = Panic p'.
+Proof. exact C08Agg.panic_aborts_report. Qed.
+Check C08_panic_aborts_report : forall (A : arith) full cur secs s ds p,
+  In (s, (ds, Some (SPanic p))) secs -> exists p', render_results A full cur secs = Panic p'.
+Print Assumptions C08_panic_aborts_report.
+
+(* Exact arithmetic: the aggregate gains of the run on an interleaving of a and
+   b (disjoint securities) are those of the run on a plus those of the run on b
+   - the total, every year's figure, and the set of years shown.  The aggregate
+   of b counts the securities of b that process without error and nothing of
+   the failing ones (C08_aggregate_ignores_failed, C08_aggregate_is_sum_of_tables).
+   All three aggregates exist.  (Under rust_decimal rounding sums of 28-digit
+   figures depend on the order of the additions - C09_sum_dec_unsorted_refuted -
+   so the statement is for exact arithmetic; the order the code uses is fixed,
+   C09_gains_sorted_perm.) *)
+Theorem C08_aggregate_additive : forall inits a b i,
+  interleave a b i ->
+  (forall x y, In x a -> In y b -> t_sec x <> t_sec y) ->
+  exists gi ga gb,
+    app_aggregate exact (results exact inits i) = Ok gi /\
+    app_aggregate exact (results exact inits a) = Ok ga /\
+    app_aggregate exact (results exact inits b) = Ok gb /\
+    (g_total gi = g_total ga + g_total gb)%Qc /\
+    (forall y, (year_val y (g_years gi) = year_val y (g_years ga) + year_val y (g_years gb))%Qc) /\
+    (forall y, In y (years_sorted gi) <-> In y (years_sorted ga) \/ In y (years_sorted gb)).
+Proof. exact C08Agg.aggregate_additive. Qed.
+Check C08_aggregate_additive : forall inits a b i,
+  interleave a b i ->
+  (forall x y, In x a -> In y b -> t_sec x <> t_sec y) ->
+  exists gi ga gb,
+    app_aggregate exact (results exact inits i) = Ok gi /\
+    app_aggregate exact (results exact inits a) = Ok ga /\
+    app_aggregate exact (results exact inits b) = Ok gb /\
+    (g_total gi = g_total ga + g_total gb)%Qc /\
+    (forall y, (year_val y (g_years gi) = year_val y (g_years ga) + year_val y (g_years gb))%Qc) /\
+    (forall y, In y (years_sorted gi) <-> In y (years_sorted ga) \/ In y (years_sorted gb)).
+Print Assumptions C08_aggregate_additive.
+
+(* Exact arithmetic, the rendered report: there is a list gl of gains records,
+   one per security, such that every table's footer shows exactly its record
+   (labels Total + its years ascending, figures its total and yearly totals), a
+   failed security's record is the empty one, and the aggregate table shows
+   (years ascending, then "Since inception") the SUMS over gl: total, each
+   year's figure, and exactly the years some table shows. *)
+Theorem C08_aggregate_is_sum_of_tables : forall full cur secs rep,
+  render_results exact full cur secs = Ok rep ->
+  exists (gl : list gains) agg,
+    Forall2 (fun g (y : N * option stop * table) => footer_shows full g (snd y)) gl (rp_tables rep) /\
+    Forall2 (fun g (x : sec_result) => snd (snd x) <> None -> g = gains0) gl secs /\
+    aggregate_shows full agg (rp_aggregate rep) /\
+    g_total agg = sum_secs g_total gl /\
+    (forall y, year_val y (g_years agg) = sum_secs (fun g => year_val y (g_years g)) gl) /\
+    (forall y, In y (years_sorted agg) <-> exists g, In g gl /\ In y (years_sorted g)).
+Proof. exact C08Agg.aggregate_is_sum_of_tables. Qed.
+Check C08_aggregate_is_sum_of_tables : forall full cur secs rep,
+  render_results exact full cur secs = Ok rep ->
+  exists (gl : list gains) agg,
+    Forall2 (fun g (y : N * option stop * table) => footer_shows full g (snd y)) gl (rp_tables rep) /\
+    Forall2 (fun g (x : sec_result) => snd (snd x) <> None -> g = gains0) gl secs /\
+    aggregate_shows full agg (rp_aggregate rep) /\
+    g_total agg = sum_secs g_total gl /\
+    (forall y, year_val y (g_years agg) = sum_secs (fun g => year_val y (g_years g)) gl) /\
+    (forall y, In y (years_sorted agg) <-> exists g, In g gl /\ In y (years_sorted g)).
+Print Assumptions C08_aggregate_is_sum_of_tables.
+
+(* ---- non-vacuity: three securities, two years, one over-sale ----
+   a: security 0: buy 10 at 2 (2019), sell 4 at 5 (2019: gain 12), sell 4 at 3 (2020: gain 4)
+   b: security 1: buy 5 at 1, sell 2 at 4 (2019: gain 6), then sells 9 holding 3 -> rejected:
+                  its two computed rows are shown, its gain of 6 counts nowhere;
+      security 2: buy 3 at 10, sell 3 at 11 (2020: gain 3)
+   i: an interleaving.  Aggregates: a = 12 / 4 / 16, b = - / 3 / 3, i = 12 / 7 / 19. *)
+Definition c08_cur (t : tx) : bytes * bytes := (s_cad, s_cad).
+Definition buy (sec : N) (day n p : Z) := mk sec day (Buy (q n 1) (q p 1) (q 0 1) (q 1 1) (q 1 1)).
+Definition sell (sec : N) (day n p : Z) := mk sec day (Sell (q n 1) (q p 1) (q 0 1) (q 1 1) (q 1 1) None).
+Definition ex_a : list tx := [buy 0 737100 10 2; sell 0 737200 4 5; sell 0 737500 4 3].
+Definition ex_b : list tx := [buy 1 737110 5 1; sell 1 737210 2 4; buy 2 737120 3 10; sell 1 737510 9 4; sell 2 737520 3 11].
+Definition ex_i : list tx :=
+  [buy 1 737110 5 1; buy 0 737100 10 2; sell 1 737210 2 4; sell 0 737200 4 5; buy 2 737120 3 10;
+   sell 1 737510 9 4; sell 0 737500 4 3; sell 2 737520 3 11].
+Definition agg_texts (r : report) : list (label * amount) := map (fun x => (fst x, pm_amt (snd x))) (rp_aggregate r).
+Definition footer_texts (s : N) (r : report) : option (option stop * nat * list label * list amount) :=
+  match table_of s r with
+  | Some (o, tb) => Some (o, length (tb_rows tb), tb_labels tb, map pm_amt (tb_values tb))
+  | None => None
+  end.
+Definition t1200 : bytes := [49; 50; 46; 48; 48]%N.
+Definition t1600 : bytes := [49; 54; 46; 48; 48]%N.
+Definition t1900 : bytes := [49; 57; 46; 48; 48]%N.
+Definition t400 : bytes := [52; 46; 48; 48]%N.
+Definition t300 : bytes := [51; 46; 48; 48]%N.
+Definition t700 : bytes := [55; 46; 48; 48]%N.
+Definition t000 : bytes := [48; 46; 48; 48]%N.
+Example C08_report_nonvacuous :
+  interleave ex_a ex_b ex_i /\
+  (forall x y, In x ex_a -> In y ex_b -> t_sec x <> t_sec y) /\
+  (forall t, c08_cur (erase t) = c08_cur t) /\
+  snd (outcome_of exact [] (number ex_i) 1) = Some (SRej RejOversale) /\
+  without 1 ex_i = [buy 0 737100 10 2; sell 0 737200 4 5; buy 2 737120 3 10; sell 0 737500 4 3; sell 2 737520 3 11] /\
+  match render_app exact false c08_cur [] (number ex_i), render_app exact false c08_cur [] (number ex_a),
+        render_app exact false c08_cur [] (number ex_b), render_app exact false c08_cur [] (number (without 1 ex_i)) with
+  | Ok ri, Ok ra, Ok rb, Ok rw =>
+      agg_texts ri = [(LYear 2019, AText t1200); (LYear 2020, AText t700); (LSince, AText t1900)] /\
+      agg_texts ra = [(LYear 2019, AText t1200); (LYear 2020, AText t400); (LSince, AText t1600)] /\
+      agg_texts rb = [(LYear 2020, AText t300); (LSince, AText t300)] /\
+      agg_texts rw = agg_texts ri /\
+      footer_texts 0 ri = Some (None, 3%nat, [LTotal; LYear 2019; LYear 2020], [AText t1600; AText t1200; AText t400]) /\
+      footer_texts 0 ra = footer_texts 0 ri /\
+      footer_texts 1 ri = Some (Some (SRej RejOversale), 2%nat, [LTotal], [AText t000]) /\
+      footer_texts 1 rb = footer_texts 1 ri /\
+      footer_texts 1 rw = None /\
+      footer_texts 2 ri = Some (None, 2%nat, [LTotal; LYear 2020], [AText t300; AText t300]) /\
+      footer_texts 2 rb = footer_texts 2 ri /\
+      option_map blank_entry (table_of 0 ri) = option_map blank_entry (table_of 0 ra) /\
+      option_map blank_entry (table_of 2 ri) = option_map blank_entry (table_of 2 rb) /\
+      table_of 0 ri <> table_of 0 ra
+  | _, _, _, _ => False
+  end.
+Proof.
+  split; [repeat constructor|].
+  split; [intros x y Hx Hy E; destruct Hx as [<-|[<-|[<-|[]]]]; destruct Hy as [<-|[<-|[<-|[<-|[<-|[]]]]]]; discriminate E|].
+  split; [reflexivity|].
+  vm_compute. repeat split. discriminate.
+Qed.
+
+(* Under rust_decimal rounding the additivity of the aggregate is NOT a theorem:
+   with own totals of 28 digits the aggregate of three securities differs (in
+   the last digit) from the sum of the aggregate of the first and the aggregate
+   of the other two.  No input a user could have; the statement above is
+   therefore for exact arithmetic, and what holds for rust_decimal rounding is
+   C08_aggregate_ignores_failed. *)
+Theorem C08_aggregate_additive_dec_refuted :
+  exists la lb gi ga gb,
+    aggregate Arith.dec gains0 (la ++ lb) = Ok gi /\ aggregate Arith.dec gains0 la = Ok ga /\
+    aggregate Arith.dec gains0 lb = Ok gb /\
+    g_total gi <> (g_total ga + g_total gb)%Qc /\ a_add Arith.dec (g_total ga) (g_total gb) <> Ok (g_total gi).
+Proof. exact C08Agg.aggregate_additive_dec_refuted. Qed.
+Check C08_aggregate_additive_dec_refuted :
+  exists la lb gi ga gb,
+    aggregate Arith.dec gains0 (la ++ lb) = Ok gi /\ aggregate Arith.dec gains0 la = Ok ga /\
+    aggregate Arith.dec gains0 lb = Ok gb /\
+    g_total gi <> (g_total ga + g_total gb)%Qc /\ a_add Arith.dec (g_total ga) (g_total gb) <> Ok (g_total gi).
+Print Assumptions C08_aggregate_additive_dec_refuted.
